@@ -9,11 +9,13 @@ from spec.ops import And, Implies, Not, Or
 
 MB = "dsl_compiler/src/layout/memory_builder.py::MemoryBuilder."
 _VREF = ty.TUnion((ty.TObj("SignalRef", only=("SignalRef",)), ty.Int))
-_NODE = ty.TObj("IRNode", only=("IRConst", "IRArith", "IRDecider"))
+_NODE = ty.TObj("IRNode", only=("IRConst", "IRArith", "IRDecider"),
+                ftypes=(("debug_metadata", ty.TRecord((("user_declared", ty.Bool),))),))
 
 
 def _post(a, res):
-    """True exactly when the write enable is the literal 1 or a reference to a constant node with value 1."""
+    """True exactly when the write enable is the literal 1 or a reference to an ANONYMOUS constant node with value 1
+    (a declared constant is an input of the blueprint: its initial value 1 does not make the write unconditional)."""
     w = a.op.write_enable
     if not isinstance(w, SObj):
         return res == (w == 1)
@@ -22,14 +24,14 @@ def _post(a, res):
         return res is False or res == False  # noqa: E712
     node = looked[-1]
     if isa(node, "IRConst"):
-        return res == (node.value == 1)
+        return res == And(node.value == 1, Not(node.debug_metadata["user_declared"]))
     return res is False or res == False  # noqa: E712
 
 
 is_always_write = Contract(
     qualname=MB + "_is_always_write",
     params={"self": ty.TObj("MemoryBuilder", only=("MemoryBuilder",)), "op": ty.TObj("IRMemWrite", only=("IRMemWrite",))},
-    ensures=[("true iff the enable is the constant 1 (literal or constant node)", _post)],
+    ensures=[("true iff the enable is the constant 1 (literal or anonymous constant node)", _post)],
     dynamic_types={"self": {"_ir_nodes": ty.TObjMap(ty.Str, _NODE)}, "op": {"write_enable": _VREF}},
     properties=("C04",), min_obligations=4,
 )
